@@ -18,11 +18,11 @@ def run(tier):
                    what='DeleteApplication.simulate removes exactly the models routed to the evolved database',
                    bounds='all 2^3 routings x 2 aliases', functions=FUNCS[2:3]),
         Obligation('installable', 'harness/c16.py', 'h_installable', timeout=600,
-                   what='db_get_installable_models_for_app (the models EvolveAppTask creates tables for) = models the router allows on the evolved database whose table does not exist yet; real django.db.router with a table-driven router object',
-                   bounds='3 models x routing in {default only, other only, no opinion}^3 x table present/absent ^3 x 2 aliases', functions=FUNCS[3:]),
+                   what='db_get_installable_models_for_app (the models EvolveAppTask creates tables for) = models the router allows on the evolved database whose table does not exist yet; real django.db.router holding a chain of one or two table-driven router objects (first opinion decides)',
+                   bounds='3 models x routing in {default only, other only, no opinion}^3 x table present/absent ^3 x 2 aliases x 5 router chains (one router; the opinions split over two routers, both orders; a refuse-all router behind; a no-opinion router in front)', functions=FUNCS[3:]),
         Obligation('from_app', 'harness/c16.py', 'h_from_app', timeout=600,
-                   what='AppSignature.from_app(app, database), the signature recorded for a database, lists exactly the models the router allows on that database',
-                   bounds='3 models x routing in {default only, other only, no opinion}^3 x 2 aliases', functions=FUNCS[3:]),
+                   what='AppSignature.from_app(app, database), the signature recorded for a database, lists exactly the models the router chain allows on that database',
+                   bounds='3 models x routing in {default only, other only, no opinion}^3 x 2 aliases x 5 router chains', functions=FUNCS[3:]),
         Obligation('evolver_baseline', 'harness/c16.py', 'h_evolver_baseline', timeout=600,
                    what='Evolver(database_name=D) on two real SQLite databases: the baseline signature comes from D\'s own version table (or is installed on D when missing) and the other database is neither consulted nor modified; discrete scenario, run concretely per path (the solver only enumerates the 8 scenarios)',
                    bounds='2 aliases x stored baseline present/absent on each database', functions=['evolve/evolver.py Evolver.__init__', 'models.py VersionManager.current_version']),
